@@ -208,8 +208,19 @@ def rule_pool_shape(chk, repo):
            "the proteome sequence is not cut at the first '*' before the digest", key=POOL + '::stop-cut', fn=f.qual)
     # cds_start_nf from the annotation, threaded
     k = kwarg(calls[0], 'cds_start_nf')
-    binds = [unparse(n.value) for n in walk_no_nested(f.node) if isinstance(n, ast.Assign) and unparse(n.targets[0]) == 'cds_start_nf']
-    ok = k is not None and unparse(k) == 'cds_start_nf' and sorted(binds) == ['False', 'anno.transcripts[tx_id].is_cds_start_nf()']
+    # every value that can reach the cds_start_nf argument: the annotation's flag of THIS protein's transcript, or False when the
+    # transcript is not annotated (names resolved through their nearest definitions)
+    from sa import sem
+    binds = []
+    if k is not None:
+        if isinstance(k, ast.Name):
+            for n in walk_no_nested(f.node):
+                if isinstance(n, ast.Assign) and len(n.targets) == 1 and unparse(n.targets[0]) == k.id:
+                    binds.append(unparse(sem.expand_names(f.node, n, n.value)))
+        else:
+            binds.append(unparse(sem.expand_names(f.node, repo.enclosing_stmt(calls[0]), k)))
+    want_b = {'False', 'anno.transcripts[protein.transcript_id].is_cds_start_nf()'}
+    ok = k is not None and set(binds) == want_b
     chk.ob('C10.c', 'cds_start_nf read from the annotation and passed to enzymatic_cleave', repo.loc(f, calls[0]), ok,
            f"cds_start_nf bindings {binds}, passed {unparse(k) if k is not None else None}", key=POOL + '::cds_start_nf', fn=f.qual)
     # six parameters name-to-name
